@@ -115,27 +115,6 @@ Definition post {T} `{Num T} (cast : T -> T) (a : T) (i1 : nat) (b : T) (i2 : na
   | _ => False
   end.
 
-(* ---------- the direct regime: no algebra needed, any carrier, any cast ---------- *)
-Section DirectAny.
-Context {T : Type} `{Num T}.
-
-Lemma direct_exact (cast : T -> T) (fuel : nat) (bi : blasinfo) a b (i1 i2 io : nat) (s : store T) :
-  length (s i1) = length (s i2) ->
-  post cast a i1 b i2 io s
-    (lincomb_fuel (S fuel) cast Direct bi {| e_a := a; e_b := b; e_x1 := i1; e_x2 := i2; e_out := io |} s).
-Proof.
-  intros L12. unfold post.
-  cbn [lincomb_fuel]. unfold direct_expr.
-  cbn [veval vbin opnd sval e_a e_b e_x1 e_x2 e_out]. unfold assign_all.
-  split.
-  - rewrite upd_same. f_equal.
-    apply nth_error_ext; intro k. unfold vlin.
-    repeat (rewrite nth_error_vmap2 || rewrite nth_error_map).
-    destruct (nth_error (s i1) k), (nth_error (s i2) k); reflexivity.
-  - intros j Hj. rewrite upd_other by assumption. reflexivity.
-Qed.
-End DirectAny.
-
 (* ---------- scalar reasoning after the case split ---------- *)
 Ltac subst_scalars :=
   repeat match goal with
@@ -181,6 +160,35 @@ Add Field Tfield : nf_field.
 Let idc : T -> T := fun u => u.
 
 (* every leaf of the tree that does not re-enter _lincomb_impl *)
+(* ---------- the direct regime (any conversion [cast] to the array dtype) ----------
+   The proof script covers the single assignment  out.data[:] = a*x1.data + b*x2.data
+   as well as an if/elif/else over the scalars with one assignment per branch. *)
+Ltac direct_pointwise L12 Lo :=
+  let k := fresh "k" in let u := fresh "u" in let v := fresh "v" in let w := fresh "w" in
+  let E1 := fresh "E1" in let E2 := fresh "E2" in let E3 := fresh "E3" in
+  apply nth_error_ext; intro k; unfold vlin;
+  repeat (rewrite nth_error_vmap2 || rewrite nth_error_map);
+  match type of L12 with length ?x = length ?y =>
+  match type of Lo with length ?z = _ =>
+    destruct (nth3 x y z k L12 Lo) as [(u & v & w & E1 & E2 & E3) | (E1 & E2 & E3)]
+  end end;
+  rewrite ?E1, ?E2, ?E3; cbn [option_map]; try reflexivity; do 2 f_equal.
+
+Lemma direct_exact (cast : T -> T) (fuel : nat) (bi : blasinfo) a b (i1 i2 io : nat) (s : store T) :
+  length (s i1) = length (s i2) -> length (s io) = length (s i1) ->
+  post cast a i1 b i2 io s
+    (lincomb_fuel (S fuel) cast Direct bi {| e_a := a; e_b := b; e_x1 := i1; e_x2 := i2; e_out := io |} s).
+Proof.
+  intros L12 Lo. unfold post.
+  cbn [lincomb_fuel]. unfold direct_body.
+  cbn [deval cval sval opnd e_a e_b e_x1 e_x2 e_out].
+  repeat split_if.
+  all: cbn [veval vbin opnd sval e_a e_b e_x1 e_x2 e_out]; unfold assign_all.
+  all: norm_hyps.
+  all: split; [ rewrite upd_same; direct_pointwise L12 Lo; subst_scalars; rewrite ?nf_of0; try ring; try zero_is_one
+              | intros j Hj; rewrite upd_other by assumption; reflexivity ].
+Qed.
+
 Definition bi_ok (r : regime) (bi : blasinfo) : Prop :=
   r = Blas -> bi_view bi = true /\ bi_call bi = true.
 
@@ -235,7 +243,7 @@ Theorem lincomb_fuel_correct (r : regime) (bi : blasinfo) a b (i1 i2 io : nat) (
 Proof.
   intros Hbi L12 Lo.
   destruct r.
-  - apply direct_exact. exact L12.
+  - apply direct_exact; assumption.
   - destruct (Nat.eq_dec i1 i2) as [E12 | N12];
       [destruct (neqb b nzero) eqn:Eb; [apply nf_eqb in Eb | apply neqb_false in Eb] |].
     + change (post idc a i1 b i2 io s (exec_list (lincomb_fuel 1 idc Fallback bi) Fallback bi
@@ -316,18 +324,19 @@ Proof.
   exists s'. rewrite map_id in Hout. auto.
 Qed.
 
-(* integer (or any) dtype: only the direct regime is used when the dtype is not floating *)
-Lemma lincomb_impl_nonfloating {T} `{Num T} (cast : T -> T) (bdt : bool) (flags : list (bool * bool))
-      (a b : T) (i1 i2 io : nat) (s : store T) :
-  length (s i1) = length (s i2) ->
+(* integer (or any non-floating) dtype: only the direct regime is used, at every size; the stored
+   result is the conversion [cast] of a*x1 + b*x2 (integers embed in the field) *)
+Lemma lincomb_impl_nonfloating {T} {N : Num T} {F : NumField T} (cast : T -> T) (bdt : bool)
+      (flags : list (bool * bool)) (a b : T) (i1 i2 io : nat) (s : store T) :
+  length (s i1) = length (s i2) -> length (s io) = length (s i1) ->
   exists s', lincomb_impl cast false bdt flags a i1 b i2 io s = Ok s'
           /\ s' io = map cast (vlin a (s i1) b (s i2))
           /\ forall j, j <> io -> s' j = s j.
 Proof.
-  intros L12. unfold lincomb_impl, lincomb_impl_sz.
+  intros L12 Lo. unfold lincomb_impl, lincomb_impl_sz.
   assert (E : forall bo, regime_of (Z.of_nat (length (s i1))) false bo = Direct).
   { intros bo. unfold regime_of. cbn [negb]. rewrite orb_true_r. reflexivity. }
-  rewrite E. apply post_ok. apply direct_exact. exact L12.
+  rewrite E. apply post_ok. apply direct_exact; assumption.
 Qed.
 
 (* the size argument only selects the regime: the same conclusion for EVERY size value *)
